@@ -186,7 +186,7 @@ abbrev A (h t : R) := QuadraticAlgebra R t h
 def Xd (h t : R) : A h t := ⟨0, 1⟩
 /-- `Y = X − h` -/
 def Yd (h t : R) : A h t := ⟨-h, 1⟩
-def Cc (h t : R) (r : R) : A h t := ⟨r, 0⟩
+def Cc (h t : R) (r : R) : A h t := QuadraticAlgebra.C r
 
 theorem Yd_eq (h t : R) : Yd h t = Xd h t - Cc h t h := by
   ext <;> simp [Yd, Xd, Cc]
@@ -202,7 +202,7 @@ theorem XY (h t : R) : Xd h t * Yd h t = Cc h t t := by
   ext <;> simp [Xd, Yd, Cc]
 /-- `Y² = −hY + t` -/
 theorem YY (h t : R) : Yd h t * Yd h t = Cc h t (-h) * Yd h t + Cc h t t := by
-  ext <;> simp [Yd, Cc] <;> ring
+  ext <;> simp [Yd, Cc]
 
 theorem im_Cc_mul (h t r : R) (z : A h t) : (Cc h t r * z).im = r * z.im := by
   simp [Cc]
@@ -228,41 +228,304 @@ variable [Coef R] [LawfulCoef R]
 
 theorem partEval_open_sem (h t : R) (g x y : Nat) :
     sem (muA h t) (partEval h t false g x y) = Xd h t ^ x * Yd h t ^ y * (Xd h t + Yd h t) ^ g := by
-  fun_induction partEval h t false g x y with
-  | case1 g x y ih1 ih2 => rw [sem_add, ih1, ih2]; ring
-  | case2 x y ih =>
+  fun_induction partEval h t false g x y <;> (try simp only [Nat.succ_eq_add_one] at *)
+  case case1 g x y ih1 ih2 => rw [sem_add, ih1, ih2]; ring
+  case case2 x y ih =>
     rw [sem_smul, ih, smul_eq_Cc]
     linear_combination (-(Xd h t ^ x * Yd h t ^ y)) * XY h t
-  | case3 x ih1 ih2 =>
+  case case3 x ih1 ih2 =>
     rw [sem_add, sem_smul, sem_smul, ih1, ih2, smul_eq_Cc, smul_eq_Cc]
     linear_combination (-(Xd h t ^ x)) * XX h t
-  | case4 y ih1 ih2 =>
+  case case4 y ih1 ih2 =>
     rw [sem_add, sem_smul, sem_smul, ih1, ih2, smul_eq_Cc, smul_eq_Cc, LawfulCoef.neg_eq]
     linear_combination (-(Yd h t ^ y)) * YY h t
-  | case5 => simp [sem_single, muA]
-  | case6 => simp [sem_single, muA]
-  | case7 => simp [sem_single, muA]
+  all_goals simp_all [sem_single, muA]
 
 theorem partEval_closed_sem (h t : R) (g x y : Nat) :
     sem (S := R) muC (partEval h t true g x y) = (Xd h t ^ x * Yd h t ^ y * (Xd h t + Yd h t) ^ g).im := by
-  fun_induction partEval h t true g x y with
-  | case1 g x y ih1 ih2 =>
+  fun_induction partEval h t true g x y <;> (try simp only [Nat.succ_eq_add_one] at *)
+  case case1 g x y ih1 ih2 =>
     rw [sem_add, ih1, ih2, ← QuadraticAlgebra.im_add]; congr 1; ring
-  | case2 x y ih =>
+  case case2 x y ih =>
     rw [sem_smul, ih, smul_eq_mul, ← im_Cc_mul]; congr 1
     linear_combination (-(Xd h t ^ x * Yd h t ^ y)) * XY h t
-  | case3 x ih1 ih2 =>
+  case case3 x ih1 ih2 =>
     rw [sem_add, sem_smul, sem_smul, ih1, ih2, smul_eq_mul, smul_eq_mul, ← im_Cc_mul, ← im_Cc_mul,
       ← QuadraticAlgebra.im_add]; congr 1
     linear_combination (-(Xd h t ^ x)) * XX h t
-  | case4 y ih1 ih2 =>
+  case case4 y ih1 ih2 =>
     rw [sem_add, sem_smul, sem_smul, ih1, ih2, smul_eq_mul, smul_eq_mul, ← im_Cc_mul, ← im_Cc_mul,
       ← QuadraticAlgebra.im_add, LawfulCoef.neg_eq]; congr 1
     linear_combination (-(Yd h t ^ y)) * YY h t
-  | case5 => simp [sem_single, muC, Xd]
-  | case6 => simp [sem_single, muC, Yd]
-  | case7 => simp [QuadraticAlgebra.im_one]
+  all_goals simp_all [sem_single, muC, Xd, Yd, QuadraticAlgebra.im_one]
 
 end alg
+
+/-! ### shape of the output -/
+
+section shape
+variable {R : Type} [Coef R]
+
+/-- a closed result is `0` or a multiple of the empty cobordism -/
+def Scalar (l : Lc Key R) : Prop := l = [] ∨ ∃ r, l = [(Key.empty, r)]
+
+theorem scalar_clean (l : Lc Key R) (hl : Scalar l) : Scalar (clean l) := by
+  rcases hl with rfl | ⟨r, rfl⟩
+  · left; rfl
+  · unfold clean; rw [List.filter_cons]; split
+    · right; exact ⟨r, rfl⟩
+    · left; rfl
+
+theorem scalar_add (a b : Lc Key R) (ha : Scalar a) (hb : Scalar b) : Scalar (add a b) := by
+  unfold add; apply scalar_clean
+  rcases hb with rfl | ⟨r, rfl⟩
+  · exact ha
+  · simp only [List.foldl_cons, List.foldl_nil]
+    unfold addPairZ; split
+    · exact ha
+    · rcases ha with rfl | ⟨r', rfl⟩
+      · right; exact ⟨r, rfl⟩
+      · right; exact ⟨Coef.add r' r, by simp [addPair]⟩
+
+theorem scalar_smul (a : Lc Key R) (r : R) (ha : Scalar a) : Scalar (smul a r) := by
+  unfold smul; split
+  · exact ha
+  · apply scalar_clean
+    rcases ha with rfl | ⟨r', rfl⟩
+    · left; rfl
+    · right; exact ⟨Coef.mul r' r, rfl⟩
+
+theorem scalar_single : Scalar (single Key.empty : Lc Key R) := by
+  unfold single fromPair; apply scalar_clean
+  unfold addPairZ; split
+  · left; rfl
+  · right; exact ⟨Coef.one, rfl⟩
+
+theorem partEval_closed_scalar (h t : R) (g x y : Nat) : Scalar (partEval h t true g x y) := by
+  fun_induction partEval h t true g x y
+  case case1 ih1 ih2 => exact scalar_add _ _ ih1 ih2
+  case case2 ih => exact scalar_smul _ _ ih
+  case case3 ih1 ih2 => exact scalar_add _ _ (scalar_smul _ _ ih1) (scalar_smul _ _ ih2)
+  case case4 ih1 ih2 => exact scalar_add _ _ (scalar_smul _ _ ih1) (scalar_smul _ _ ih2)
+  all_goals first | exact scalar_single | (left; rfl) | simp_all
+
+/-- an open term: the same component with genus 0 and at most one dot -/
+def OpenKey : Key → Prop
+  | .empty => False
+  | .comp x y => x + y ≤ 1
+
+theorem partEval_open_keys (h t : R) (g x y : Nat) :
+    ∀ p ∈ partEval h t false g x y, OpenKey p.1 := by
+  fun_induction partEval h t false g x y
+  case case1 ih1 ih2 => exact add_forall (fun k _ => OpenKey k) (fun _ _ _ a _ => a) _ _ ih1 ih2
+  case case2 ih => exact smul_forall (fun k _ => OpenKey k) _ _ _ ih (fun _ _ _ a => a) (fun _ _ a => a)
+  case case3 ih1 ih2 =>
+    exact add_forall (fun k _ => OpenKey k) (fun _ _ _ a _ => a) _ _
+      (smul_forall (fun k _ => OpenKey k) _ _ _ ih1 (fun _ _ _ a => a) (fun _ _ a => a))
+      (smul_forall (fun k _ => OpenKey k) _ _ _ ih2 (fun _ _ _ a => a) (fun _ _ a => a))
+  case case4 ih1 ih2 =>
+    exact add_forall (fun k _ => OpenKey k) (fun _ _ _ a _ => a) _ _
+      (smul_forall (fun k _ => OpenKey k) _ _ _ ih1 (fun _ _ _ a => a) (fun _ _ a => a))
+      (smul_forall (fun k _ => OpenKey k) _ _ _ ih2 (fun _ _ _ a => a) (fun _ _ a => a))
+  all_goals first
+    | (exfalso; simp_all; done)
+    | (refine single_forall (fun k _ => OpenKey k) _ ?_; simp [OpenKey])
+
+end shape
+
+/-! ### closed evaluation -/
+
+section closed
+variable {R : Type} [CommRing R] [Coef R] [LawfulCoef R]
+
+theorem evalClosed_eq (h t : R) (g x y : Nat) :
+    evalClosed h t true g x y = .ok (counit (Xd h t ^ x * Yd h t ^ y * (Xd h t + Yd h t) ^ g)) := by
+  have hs := partEval_closed_sem h t g x y
+  unfold evalClosed counit
+  rcases partEval_closed_scalar h t g x y with h0 | ⟨r, h1⟩
+  · rw [h0] at hs ⊢
+    simp only [sem_nil] at hs
+    simp [← hs, LawfulCoef.zero_eq]
+  · rw [h1] at hs ⊢
+    simp [muC] at hs
+    simp [← hs]
+
+omit [Coef R] [LawfulCoef R] in
+/-- `(X + Y)² = h² + 4t` is a scalar -/
+theorem XpY_sq (h t : R) : (Xd h t + Yd h t) ^ 2 = Cc h t (h ^ 2 + 4 * t) := by
+  ext <;> simp [Xd, Yd, Cc, pow_two, QuadraticAlgebra.re_ofNat, QuadraticAlgebra.im_ofNat] <;> ring
+
+omit [Coef R] [LawfulCoef R] in
+theorem im_Cc (h t r : R) : (Cc h t r).im = 0 := rfl
+
+omit [Coef R] [LawfulCoef R] in
+theorem zero_cob_value (h t : R) (k x : Nat) :
+    counit (Xd h t ^ x * Yd h t ^ x * (Xd h t + Yd h t) ^ (2 * k)) = 0 := by
+  have e : Xd h t ^ x * Yd h t ^ x * (Xd h t + Yd h t) ^ (2 * k) = Cc h t (t ^ x * (h ^ 2 + 4 * t) ^ k) := by
+    rw [← mul_pow, XY, pow_mul, XpY_sq]
+    simp only [Cc, QuadraticAlgebra.C_mul, QuadraticAlgebra.C_pow]
+  rw [e]; rfl
+
+end closed
+
+/-! ### homogeneity over `ℤ[H, T]` -/
+
+section homog
+
+/-- weight of `H^a T^b` (half of minus its degree): `a + 2b` -/
+def wt (m : Mono) : Nat := m.1 + 2 * m.2
+
+theorem monoDeg_eq (m : Mono) : monoDeg m = -2 * (wt m : Int) := by
+  simp only [monoDeg, wt]; push_cast; ring
+
+theorem foldl_inv {α β : Type} (I : β → Prop) (f : β → α → β) (l : List α) (b : β) (hb : I b)
+    (hf : ∀ b a, a ∈ l → I b → I (f b a)) : I (l.foldl f b) := by
+  induction l generalizing b with
+  | nil => exact hb
+  | cons a l ih =>
+    exact ih (f b a) (hf b a (List.mem_cons_self ..) hb) (fun b a' ha' => hf b a' (List.mem_cons_of_mem _ ha'))
+
+theorem HT_add_keys (Q : Mono → Prop) (p q : HT) (hp : ∀ x ∈ p, Q x.1) (hq : ∀ x ∈ q, Q x.1) :
+    ∀ x ∈ (Coef.add p q : HT), Q x.1 :=
+  add_forall (fun k _ => Q k) (fun _ _ _ a _ => a) p q hp hq
+
+theorem HT_neg_keys (Q : Mono → Prop) (p : HT) (hp : ∀ x ∈ p, Q x.1) : ∀ x ∈ (Coef.neg p : HT), Q x.1 := by
+  intro x hx
+  rcases List.mem_map.1 hx with ⟨y, hy, rfl⟩
+  exact hp y hy
+
+theorem HT_mul_keys (Q1 Q2 Q : Mono → Prop) (hQ : ∀ a b, Q1 a → Q2 b → Q (a.1 + b.1, a.2 + b.2))
+    (p q : HT) (hp : ∀ x ∈ p, Q1 x.1) (hq : ∀ x ∈ q, Q2 x.1) : ∀ x ∈ (Coef.mul p q : HT), Q x.1 := by
+  show ∀ x ∈ HT.mul p q, Q x.1
+  unfold HT.mul
+  apply clean_forall (fun k _ => Q k)
+  apply foldl_inv (fun acc : HT => ∀ x ∈ acc, Q x.1)
+  · simp
+  · intro acc a ha hacc
+    apply foldl_inv (fun acc : HT => ∀ x ∈ acc, Q x.1)
+    · exact hacc
+    · intro acc' b hb hacc'
+      exact addPairZ_forall (fun k _ => Q k) (fun _ _ _ a _ => a) acc' hacc' _ _ (hQ _ _ (hp a ha) (hq b hb))
+
+/-- all monomials of the coefficient have weight `n − dots(k)` -/
+def HomogAt (n : Nat) (k : Key) (c : HT) : Prop := ∀ q ∈ c, k.dots + wt q.1 = n
+
+theorem homogAt_add (n : Nat) (k : Key) (r r' : HT) (h1 : HomogAt n k r) (h2 : HomogAt n k r') :
+    HomogAt n k (Coef.add r r') :=
+  HT_add_keys (fun m => k.dots + wt m = n) r r' h1 h2
+
+theorem homogAt_mul (n w : Nat) (k : Key) (c r : HT) (hc : HomogAt n k c) (hr : ∀ q ∈ r, wt q.1 = w) :
+    HomogAt (n + w) k (Coef.mul c r) :=
+  HT_mul_keys (fun m => k.dots + wt m = n) (fun m => wt m = w) (fun m => k.dots + wt m = n + w)
+    (fun a b ha hb => by simp only [wt] at *; omega) c r hc hr
+
+theorem lc_add_homog (n : Nat) (a b : Lc Key HT) (ha : ∀ p ∈ a, HomogAt n p.1 p.2) (hb : ∀ p ∈ b, HomogAt n p.1 p.2) :
+    ∀ p ∈ add a b, HomogAt n p.1 p.2 :=
+  add_forall (HomogAt n) (homogAt_add n) a b ha hb
+
+theorem lc_smul_homog (n w : Nat) (a : Lc Key HT) (r : HT) (ha : ∀ p ∈ a, HomogAt n p.1 p.2)
+    (hr : ∀ q ∈ r, wt q.1 = w) (h1 : Coef.isOne r = false) :
+    ∀ p ∈ smul a r, HomogAt (n + w) p.1 p.2 :=
+  smul_forall (HomogAt n) (HomogAt (n + w)) a r ha (fun h => by simp [h1] at h)
+    (fun k c hc => homogAt_mul n w k c r hc hr)
+
+theorem lc_single_homog (k : Key) : ∀ p ∈ (single k : Lc Key HT), HomogAt k.dots p.1 p.2 := by
+  apply single_forall (HomogAt k.dots)
+  intro q hq
+  have : q = ((0, 0), 1) := by simpa [Coef.one] using hq
+  subst this; simp [wt]
+
+theorem wt_H : ∀ q ∈ HT.H, wt q.1 = 1 := by simp [HT.H, wt]
+theorem wt_T : ∀ q ∈ HT.T, wt q.1 = 2 := by simp [HT.T, wt]
+theorem wt_negH : ∀ q ∈ (Coef.neg HT.H : HT), wt q.1 = 1 := by simp [Coef.neg, HT.neg, HT.H, wt]
+
+theorem partEval_HT_homog (closed : Bool) (g x y : Nat) :
+    ∀ p ∈ partEval HT.H HT.T closed g x y, HomogAt (g + x + y) p.1 p.2 := by
+  fun_induction partEval HT.H HT.T closed g x y <;> (try simp only [Nat.succ_eq_add_one] at *)
+  case case1 g x y ih1 ih2 =>
+    have e1 : g + (x + 1) + y = g + 1 + x + y := by omega
+    have e2 : g + x + (y + 1) = g + 1 + x + y := by omega
+    rw [e1] at ih1; rw [e2] at ih2
+    exact lc_add_homog _ _ _ ih1 ih2
+  case case2 x y ih =>
+    have := lc_smul_homog _ 2 _ HT.T ih wt_T rfl
+    have e : 0 + x + y + 2 = 0 + (x + 1) + (y + 1) := by omega
+    rw [e] at this; exact this
+  case case3 x ih1 ih2 =>
+    have h1 := lc_smul_homog _ 1 _ HT.H ih1 wt_H rfl
+    have h2 := lc_smul_homog _ 2 _ HT.T ih2 wt_T rfl
+    have e1 : 0 + (x + 1) + 0 + 1 = 0 + (x + 2) + 0 := by omega
+    have e2 : 0 + x + 0 + 2 = 0 + (x + 2) + 0 := by omega
+    rw [e1] at h1; rw [e2] at h2
+    exact lc_add_homog _ _ _ h1 h2
+  case case4 y ih1 ih2 =>
+    have h1 := lc_smul_homog _ 1 _ (Coef.neg HT.H) ih1 wt_negH rfl
+    have h2 := lc_smul_homog _ 2 _ HT.T ih2 wt_T rfl
+    have e1 : 0 + 0 + (y + 1) + 1 = 0 + 0 + (y + 2) := by omega
+    have e2 : 0 + 0 + y + 2 = 0 + 0 + (y + 2) := by omega
+    rw [e1] at h1; rw [e2] at h2
+    exact lc_add_homog _ _ _ h1 h2
+  all_goals first
+    | exact lc_single_homog _
+    | simp
+
+end homog
+
+/-! ### the matrix checker -/
+
+section mat
+
+/-- `Σ_{k<n} f k` -/
+def sumTo : Nat → (Nat → Int) → Int
+  | 0, _ => 0
+  | n + 1, f => sumTo n f + f n
+
+theorem sumTo_shift (n : Nat) (f : Nat → Int) : sumTo (n + 1) f = f 0 + sumTo n (fun k => f (k + 1)) := by
+  induction n with
+  | zero => simp [sumTo]
+  | succ n ih => rw [sumTo, ih, sumTo]; ring
+
+theorem sumTo_congr (n : Nat) (f g : Nat → Int) (h : ∀ k < n, f k = g k) : sumTo n f = sumTo n g := by
+  induction n with
+  | zero => rfl
+  | succ n ih => rw [sumTo, sumTo, ih (fun k hk => h k (by omega)), h n (by omega)]
+
+theorem dot_eq_sumTo (r c : List Int) :
+    dot r c = sumTo (min r.length c.length) (fun k => r.getD k 0 * c.getD k 0) := by
+  induction r generalizing c with
+  | nil => simp [dot, sumTo]
+  | cons a r ih =>
+    cases c with
+    | nil => simp [dot, sumTo]
+    | cons b c =>
+      rw [dot, ih c]
+      have : min (a :: r).length (b :: c).length = min r.length c.length + 1 := by
+        simp only [List.length_cons]; omega
+      rw [this, sumTo_shift]; simp
+
+/-- entry `(i, j)` of the product `A · B` (rows as lists, missing entries read as 0) -/
+def mulEntry (A B : List (List Int)) (i j : Nat) : Int :=
+  sumTo B.length (fun k => (A.getD i []).getD k 0 * (B.getD k []).getD j 0)
+
+theorem col_getD (B : List (List Int)) (j k : Nat) (hk : k < B.length) :
+    (col B j).getD k 0 = (B.getD k []).getD j 0 := by
+  simp [col, List.getD_eq_getElem?_getD, hk]
+
+theorem matMulZero_entry (A B : List (List Int)) (n : Nat) (hz : matMulZero A B n = true)
+    (hs : shapeOk A B n = true) (i j : Nat) (hi : i < A.length) (hj : j < n) : mulEntry A B i j = 0 := by
+  unfold matMulZero at hz
+  unfold shapeOk at hs
+  simp only [List.all_eq_true, Bool.and_eq_true, beq_iff_eq, List.mem_range] at hz hs
+  have hr : A.getD i [] ∈ A := by
+    rw [List.getD_eq_getElem?_getD, List.getElem?_eq_getElem hi]; simp
+  have h1 := hz _ hr j hj
+  have hl := hs.1 _ hr
+  rw [dot_eq_sumTo] at h1
+  have hc : (col B j).length = B.length := by simp [col]
+  rw [hl, hc, Nat.min_self] at h1
+  unfold mulEntry
+  exact (sumTo_congr _ _ _ (fun k hk => by rw [col_getD B j k hk])).trans h1
+
+end mat
 
 end Yuiv.C05
